@@ -30,7 +30,7 @@ INFO = dict(
          'scales.dispatch.AsyncResult -> counting subclass'],
   assumptions=['A1 zero-time code', 'A2 exact reals', 'A3 tie order', 'A4 socket/peer contracts', 'A5 accelerated Thrift codec == pure-Python codec'],
 )
-EXPECT_COVERS = ['T:io-error', 'M:io-error', 'T:reply-wins', 'T:timeout-wins', 'M:reply-wins', 'M:timeout-wins', 'T:peer-close', 'M:peer-close',
+EXPECT_COVERS = ['T:jitter-swaps-member-in', 'M:jitter-swaps-member-in', 'T:io-error', 'M:io-error', 'T:reply-wins', 'T:timeout-wins', 'M:reply-wins', 'M:timeout-wins', 'T:peer-close', 'M:peer-close',
                  'T:issued-before-open', 'M:issued-before-open', 'T:refused', 'M:refused']
 
 
@@ -45,6 +45,7 @@ def jobs(tier):
       js.append(dict(name='%s-two-calls-gap-kinds' % k, stack=k, sc='two', gaps=[1], cost=30000, shards=64, shard_depth=6))
     js.append(dict(name='%s-before-open' % k, stack=k, sc='preopen', cost=200))
     js.append(dict(name='%s-refused' % k, stack=k, sc='refused', cost=50))
+    js.append(dict(name='%s-aperture-jitter' % k, stack=k, sc='jitter', cost=3000, shards=16, shard_depth=5))
     if tier != 'quick':
       js.append(dict(name='%s-three-calls-two-endpoints' % k, stack=k, sc='three', gaps=[], cost=50000, shards=64, shard_depth=6))
       js.append(dict(name='%s-member-leaves' % k, stack=k, sc='leave', cost=3000, shards=16, shard_depth=5))
@@ -94,6 +95,39 @@ def make_body(job):
         check('call.kind', out in ('value', 'timeout'))
       else:
         if out == 'error': cover(k + ':peer-close')
+      check('no-greenlet-error', not vtime.ERRORS)
+      c.DispatcherClose()
+    elif sc == 'jitter':
+      # two members, one in the aperture; the periodic aperture jitter (every 3 s here, through the public builder) swaps
+      # the idle member in, whose connection takes a symbolic while to open; a call to a silent server is in flight and
+      # its deadline falls before / during / after that open
+      from scales.loadbalancer import ApertureBalancerSink
+      from scales.constants import SinkRole
+      T = fresh_real('T', 0, 8, lo_strict=True)
+      L = fresh_real('swapped_in_member_opens_in', 0, 8)
+      script = netm.Script(plan=lambda i, p: ('never',))
+      nconn = [0]
+      def delay(n_):
+        nconn[0] += 1
+        return 0.1 if nconn[0] == 1 else L
+      for name, port in (('a', 1), ('b', 2)):
+        e.net.endpoint(name, port, peer=lambda s_: peer_cls(k)(s_, script), connect_delay=delay)
+      from scales.thrift import Thrift
+      from scales.thriftmux import ThriftMux
+      b = (ThriftMux if k == 'M' else Thrift).NewBuilder(stacks.Hello.Iface).SetUri('tcp://a:1,b:2').SetTimeout(T)
+      c = b.ReplaceRole(SinkRole.LoadBalancer, ApertureBalancerSink.Builder(min_size=1, jitter_min_sec=3, jitter_max_sec=3)).Build()
+      g = fresh_real('issue_at', 0, 6)
+      if hdecide(g > 0): gevent.sleep(g)
+      t0 = vtime.now()
+      ar = c.hi_async('x')
+      hdecide(g + T < 3)
+      hdecide(g + T < 3 + L)
+      gevent.sleep(17)
+      out = judge('call', ar, t0, T)
+      # (the outcome is a time-out, or - when the jitter has meanwhile taken the call's member out of the aperture and the
+      # member's connection is closed as the call is handed back - a 'Close invoked' client error; either way once, in time)
+      check('call.kind', out in ('timeout', 'error'))
+      if nconn[0] >= 2: cover(k + ':jitter-swaps-member-in')
       check('no-greenlet-error', not vtime.ERRORS)
       c.DispatcherClose()
     elif sc == 'iofault':
